@@ -305,3 +305,31 @@ func C06History() {
 	sym.Assert(probe.count() == 1, "earlier-connection-authentication-leaked")
 	sym.Reach("history-done")
 }
+
+// C06Pipelined: the client does not wait for the answer to its authenticate request: the request and
+// one or two further frames arrive back to back. The gate still holds for whatever is decided first,
+// and the connection's state is never accessed by two goroutines without synchronisation (the engine
+// reports unordered accesses to the capability map: the runtime kills the process when they overlap).
+func C06Pipelined() {
+	auth := &zzAuth{user: "u", token: "t"}
+	l := newZZListener()
+	srv, _ := StandAloneServer(l, auth, PrivateNamespace())
+	probe := &zzProbe{}
+	srv.NewService("probe", probe)
+	a := l.connect()
+	good := sym.Bool("good-credentials")
+	creds := CapabilityMap{KeyUser: value.String("u"), KeyToken: value.String("x")}
+	if good {
+		creds[KeyToken] = value.String("t")
+	}
+	n := 1 + sym.Choose("pipelined-frames", 2)
+	a.inject(zzFrame(net.Call, 0, 0, 8, 1, zzCapPayload(creds)))
+	for i := 0; i < n; i++ {
+		a.inject(zzFrame(net.Call, 1, 1, 1, uint32(2+i), nil))
+	}
+	sym.Quiesce()
+	if !good {
+		sym.Assert(probe.count() == 0, "unauthenticated-message-reached-service")
+	}
+	sym.Reach("pipelined-done")
+}
